@@ -408,7 +408,19 @@ def extract():
                                   'expr': "(DTuple [DApp %s [%s]])" % (cn, "; ".join("(DParam %d)" % i for i in range(len(meta['params'])))),
                                   'accs': [], 'kind': 'layer'})
                     nrow += 1
-                lmeta.append({'coq': cn, 'class': cname, 'module': modq, 'params': meta['params'], 'fparams': meta['fparams'],
+                # does the constructor (or a parent's) create tensors (parameters / running statistics)?
+                creates = False
+                q, c_ = modq, cd
+                while True:
+                    for sub in [x for m_ in c_.body if isinstance(m_, ast.FunctionDef) and m_.name == '__init__' for x in ast.walk(m_)]:
+                        if isinstance(sub, ast.Call) and (U(sub.func) in ('nn.Parameter', 'Parameter', 'Tensor') or U(sub.func).startswith('synapgrad.')):
+                            creates = True
+                    if c_.name == 'Module':
+                        break
+                    q, c_ = it.parent(q, c_)
+                for r_ in lrows[len(lrows) - nrow:]:
+                    r_['param_free'] = not creates
+                lmeta.append({'coq': cn, 'class': cname, 'module': modq, 'param_free': not creates, 'params': meta['params'], 'fparams': meta['fparams'],
                               'cparams': meta['cparams'], 'static': static, 'labels': sorted(labels), 'rows': nrow})
     return world, flags, rows, lrows, wmeta, mmeta, lmeta, layer_defs, dflt_cn
 
@@ -448,6 +460,9 @@ def emit(world, flags, rows, lrows, wmeta, mmeta, lmeta, layer_defs, dflt_cn):
         out.append("Definition %s : list oprow :=\n  [%s]." % (nm, ";\n   ".join(row(r) for r in rs)))
         out.append("")
     out.append("Definition op_rows : list oprow := wrapper_rows ++ method_rows.")
+    out.append("")
+    out.append("(* rows of layer / loss classes whose constructors create no tensor (no parameters, no running statistics) *)")
+    out.append("Definition param_free_layer_rows : list oprow :=\n  [%s]." % ";\n   ".join(row(r) for r in lrows if r.get('param_free')))
     return "\n".join(out) + "\n"
 
 
